@@ -40,7 +40,7 @@ def expected_tt(time_term, offset):
 
 def rt_scenario(ctx, j):
     """j: lat 'pos'|'none'|'neg', form 'bundle'|'msg'|'nested'|'completion', where 'routine'|'outside'"""
-    sim = cosim.Sim(ctx, jitter=True, max_events=18)
+    sim = cosim.Sim(ctx, jitter=True, max_events=18, appclock_gap=(j['where'] == 'after-app'))
     rec = {'mode': 'rt', 'job': dict(j)}
 
     def data(sub):
@@ -92,14 +92,32 @@ def rt_scenario(ctx, j):
                 s.foreign('play', play)
             else:
                 def outside(world):
+                    if j['where'] == 'after-app' and not start.get('app-done'):
+                        raise PathAbort('the send comes after the AppClock task is over')
                     sent['logical'] = world.now
                     sent['phys'] = world.now
                     try:
                         send()
                     except ValueError as e:
                         sent['refused'] = str(e)
+                if j['where'] == 'after-app':
+                    # a task on AppClock that ends (routine) or fails (function) before the main thread sends
+                    def app_body():
+                        yield d0
+                        start['app-done'] = True
+
+                    def app_fn():
+                        start['app-done'] = True
+                        raise RuntimeError('task failure (logged by the clock)')
+
+                    def play_app(world):
+                        if j.get('app') == 'raises':
+                            clk.AppClock.sched(d0, app_fn)
+                        else:
+                            stm.Routine(app_body).play(clk.AppClock)
+                    s.foreign('task on AppClock', play_app)
                 s.foreign('send from the main thread', outside)
-            s.run(clk.SystemClock)
+            s.run(clk.AppClock if j['where'] == 'after-app' else clk.SystemClock)
             if w.truncated or 'logical' not in sent:
                 raise PathAbort('not reached')
             t = R(sent['logical'])
@@ -737,6 +755,20 @@ def _replay_rt(j, g):
             stm.Routine(body).play(clk.SystemClock)
             time.sleep(0.8)
         else:
+            if j['where'] == 'after-app':
+                def app_body():
+                    yield 0.05
+
+                def app_fn():
+                    raise RuntimeError('task failure (logged by the clock)')
+                import logging
+                logging.disable(logging.CRITICAL)
+                if j.get('app') == 'raises':
+                    clk.AppClock.sched(0.05, app_fn)
+                else:
+                    stm.Routine(app_body).play(clk.AppClock)
+                time.sleep(0.6)          # the AppClock task is over; the main thread sends half a second later
+                logging.disable(logging.NOTSET)
             sent['logical'] = main.elapsed_time()
             send()
     finally:
@@ -746,7 +778,7 @@ def _replay_rt(j, g):
     tree = oscref.decode(captured[0])
     off = clk.SystemClock._elapsed_osc_offset
     t = sent['logical']
-    slack = int(0.02 * TWO32) if j['where'] == 'outside' else 2
+    slack = int(0.02 * TWO32) if j['where'] in ('outside', 'after-app') else 2
     if j['form'] in ('bundle', 'nested'):
         want = 1 if j['lat'] != 'pos' else int((t + L) * TWO32) + off
         if abs(tree[1] - want) > slack:
@@ -776,6 +808,7 @@ def main(tier, seed):
     rt = [dict(mode='rt', form=f, lat=l, where=wh) for f in ('bundle', 'nested', 'msg', 'completion')
           for l in (('pos', 'none', 'neg') if f in ('bundle', 'nested') else ('pos',)) for wh in ('routine', 'outside')]
     rt.append(dict(mode='rt', law='roundtrip'))
+    rt += [dict(mode='rt', form='bundle', lat='pos', where='after-app', app=a) for a in ('ends', 'raises')]
     lat_kinds = ['pos', 'none', 'neg', 'zero']
     nrt = []
     nmax = 3 if tier == 'quick' else 4
